@@ -112,7 +112,7 @@ Fixpoint bloop (st : sstate) (v : str) : str :=
   end.
 Definition vsuf (st : sstate) (r : str) : str := match st with SN => r | _ => 92%N :: r end.
 
-Lemma hstring_unfold v : hstring v = 34%N :: hstring_loop SN v ++ [34%N].
+Lemma hstring_unfold v : hstring_uri v = 34%N :: hstring_loop SN v ++ [34%N].
 Proof. reflexivity. Qed.
 
 Lemma loop_head st r tl : st <> SN -> exists t', hstring_loop st r ++ tl = 92%N :: t'.
@@ -275,18 +275,6 @@ Section Units.
   Qed.
 End Units.
 
-Lemma rmatch_string_rep prev v follow : representable v ->
-  rmatch re_STRING prev (hstring v ++ follow) = Some (length (hstring v)).
-Proof.
-  intros Hr. unfold rmatch. rewrite hstring_unfold, re_STRING_shape. cbn [app m]. rewrite N.eqb_refl.
-  rewrite <- app_assoc. cbn [app].
-  match goal with |- context [rep_iter (m body_dq) ?k _ _ _ _ _] =>
-    assert (HK : forall p, k p (34%N :: follow) = Some (length (34%N :: hstring_loop SN v ++ [34%N])));
-      [|pose proof (body_iter nat k _ follow HK v SN Hr) as H] end.
-  { intros p. rewrite N.eqb_refl. f_equal. cbn [length]. rewrite !app_length. cbn [length]. lia. }
-  unfold Iter in H. cbn [pre app] in H. rewrite H by lia. reflexivity.
-Qed.
-
 (* ------------------------------------------------------------------ no earlier production matches a text that starts with a quote *)
 (* [fails_on r c]: r matches no text that begins with c;  [skips r c]: on such a text r can only
    hand the unchanged text to its continuation (sufficient syntactic conditions)               *)
@@ -368,23 +356,6 @@ Proof.
   unfold rmatch. rewrite (fails_on_sound r c Hr). apply IH; assumption.
 Qed.
 
-
-Lemma try_prods_string dc fs prev v follow : representable v ->
-  try_prods productions dc fs prev (hstring v ++ follow) = Some (Step (s "STRING") (hstring v) true).
-Proof.
-  intros Hr. pose proof (rmatch_string_rep prev v follow Hr) as Hm. revert Hm.
-  rewrite productions_split. rewrite hstring_unfold. cbn [app]. intros Hm.
-  rewrite try_prods_skip; [|discriminate|exact before_STRING_fail].
-  cbn [try_prods].
-  change (eqs (s "STRING") (s "CHAR")) with false. rewrite andb_false_r. cbn [andb].
-  rewrite Hm.
-  change (eqs (s "STRING") (s "IDENT")) with false. cbn [andb].
-  change (eqs (s "STRING") (s "INVALID")) with false. rewrite andb_false_r. cbn [andb].
-  change (eqs (s "STRING") (s "FUNCTION")) with false. rewrite andb_false_r. cbn [andb].
-  f_equal. f_equal.
-  change (34%N :: (hstring_loop SN v ++ [34%N]) ++ follow) with ((34%N :: hstring_loop SN v ++ [34%N]) ++ follow).
-  rewrite firstn_app, firstn_all, Nat.sub_diag. cbn [firstn]. apply app_nil_r.
-Qed.
 
 (* ------------------------------------------------------------------ escape resolution of the token value *)
 Lemma rmatch_us_nonhex prev x t : ishex x = false -> rmatch re_unicodesub prev (92%N :: x :: t) = None.
@@ -537,21 +508,6 @@ Proof.
       * apply Cs_bs; [exact H2|]. apply Cs_plain; [exact Hc|apply (IH SN H3)].
 Qed.
 
-Lemma finish_string_rep v after : representable v ->
-  finish_token (s "STRING") (hstring v) after = (s "STRING", hstring v, 34%N :: bloop SN v ++ [34%N]).
-Proof.
-  intros Hr. unfold finish_token.
-  change (mem_str (s "STRING") resolved_types) with true. change (mem_str (s "STRING") clean_types) with true.
-  cbv iota. f_equal.
-  assert (U34 : Us [34%N] [34%N]) by (apply Us_plain; [discriminate|apply Us_nil]).
-  assert (Hu : unicodesub (hstring v) = 34%N :: bloop SN v ++ [34%N]).
-  { rewrite hstring_unfold. unfold unicodesub, sub_all.
-    apply (Us_plain 34); [discriminate| |cbn [length]; lia].
-    apply unicodesub_loop; [exact U34| |exact Hr]. exists 34%N, []. split; reflexivity. }
-  rewrite Hu. unfold cleanstring, sub_all. cbn [length]. unfold re_cleanstring.
-  rewrite sub_all_fuel_plain by discriminate. f_equal. apply (cleanstring_loop v SN Hr). lia.
-Qed.
-
 (* ------------------------------------------------------------------ Base._stringtokenvalue on that value *)
 Definition Rp (t o : str) : Prop :=
   forall fuel, (length t < fuel)%nat -> py_replace_fuel fuel t [92; 34]%N [34%N] = o.
@@ -616,82 +572,3 @@ Proof.
   rewrite py_slice_1_1. reflexivity.
 Qed.
 
-(* ------------------------------------------------------------------ the round trip *)
-Lemma hstring_shape v : exists y, hstring v = 34%N :: y.
-Proof. rewrite hstring_unfold. eauto. Qed.
-
-Theorem string_roundtrip_lemma : forall dc fs v follow,
-  representable v ->
-  exists t, first_token dc fs (hstring v ++ follow) = Some t /\
-            ty t = s "STRING" /\ raw t = hstring v /\ line t = 1%nat /\ col t = 1%nat /\
-            stringtokenvalue (Some t) = Ok (Some v).
-Proof.
-  intros dc fs v follow Hn.
-  exists (mkTok (s "STRING") (hstring v) (34%N :: bloop SN v ++ [34%N]) 1 1).
-  split; [|repeat split; apply stringtokenvalue_rep; exact Hn].
-  destruct (hstring_shape v) as [y Hy].
-  unfold first_token, tokenize.
-  assert (Hb : rmatch (snd bom_production) None (hstring v ++ follow) = None).
-  { rewrite Hy. unfold rmatch. apply fails_on_sound. exact bom_fails_dq. }
-  rewrite Hb.
-  assert (Hs : starts (s "@charset ") (hstring v ++ follow) = false) by (rewrite Hy; reflexivity).
-  rewrite Hs.
-  set (text := hstring v ++ follow).
-  assert (Htext : text = 34%N :: y ++ follow) by (unfold text; rewrite Hy; reflexivity).
-  assert (Hl : loop (S (length text)) dc fs None text 1 1 =
-               option_map (cons (mkTok (s "STRING") (hstring v) (34%N :: bloop SN v ++ [34%N]) 1 1))
-                 (let '(l', c') := upd_pos 1 1 (hstring v) in
-                  loop (length text) dc fs (last_opt None (hstring v)) follow l' c')).
-  { rewrite Htext at 2. cbn [loop]. change (mem 34%N fastchars) with false. cbv iota.
-    rewrite <- Htext. unfold text. rewrite (try_prods_string dc fs None v follow Hn).
-    rewrite skipn_app, skipn_all, Nat.sub_diag. cbn [skipn app].
-    rewrite (finish_string_rep v follow Hn).
-    rewrite skipn_app, skipn_all, Nat.sub_diag. cbn [skipn app].
-    destruct (upd_pos 1 1 (hstring v)) as [l' c'].
-    change (eqs (s "STRING") (s "COMMENT")) with false. cbn [negb]. rewrite orb_true_r.
-    destruct (loop (length (hstring v ++ follow)) dc fs (last_opt None (hstring v)) follow l' c'); reflexivity. }
-  rewrite Hl. destruct (upd_pos 1 1 (hstring v)) as [l' c'].
-  destruct (loop_total (length text) dc fs (last_opt None (hstring v)) follow l' c') as [ts Hts].
-  { rewrite Htext. cbn [length]. rewrite app_length. lia. }
-  rewrite Hts. reflexivity.
-Qed.
-
-(* the second half of the property at this level: writing the re-read value gives the same text *)
-Corollary string_fixpoint_lemma : forall dc fs v follow t w,
-  representable v -> first_token dc fs (hstring v ++ follow) = Some t ->
-  stringtokenvalue (Some t) = Ok (Some w) -> hstring w = hstring v.
-Proof.
-  intros dc fs v follow t w Hn Ht Hw.
-  destruct (string_roundtrip_lemma dc fs v follow Hn) as (t' & Ht' & _ & _ & _ & _ & Hv).
-  rewrite Ht in Ht'. injection Ht' as <-. rewrite Hw in Hv. injection Hv as ->. reflexivity.
-Qed.
-
-(* ------------------------------------------------------------------ the value that is still not restored *)
-(* The single-quoted source  apostrophe backslash quote apostrophe  is one STRING token whose string value is
-   backslash quote  (Base._stringtokenvalue removes the backslash only in front of the token's own quote
-   character).  helper.string writes that value as  quote backslash backslash quote quote  (this very output is
-   asserted by the pinned test test_value.py:411, so the writer keeps it); its first token is the string
-   quote backslash backslash quote  with the value  backslash,  and an unterminated string follows.        *)
-Definition bs_source : str := [39; 92; 34; 39]%N.
-Definition bs_value : str := [92; 34]%N.
-
-Lemma bs_value_is_parsed : forall fs,
-  option_map (fun t => (ty t, stringtokenvalue (Some t))) (first_token true fs bs_source)
-  = Some (s "STRING", Ok (Some bs_value)).
-Proof. intros [|]; vm_compute; reflexivity. Qed.
-
-Lemma bs_value_not_representable : representable bs_value -> False.
-Proof. vm_compute. discriminate. Qed.
-
-Lemma bs_value_not_restored : forall fs,
-  hstring bs_value = [34; 92; 92; 34; 34]%N /\
-  option_map (fun t => (raw t, stringtokenvalue (Some t))) (first_token true fs (hstring bs_value))
-  = Some ([34; 92; 92; 34]%N, Ok (Some [92%N])).
-Proof. intros [|]; vm_compute; split; reflexivity. Qed.
-
-(* values with backslashes that ARE representable: a backslash before a hex digit (was C03-backslash-reread-as-escape),
-   a backslash pair before a hex digit, trailing backslashes, a simple escape *)
-Example backslash_values_representable :
-  representable [92; 53; 50; 99]%N /\ representable [252; 92; 92; 100; 48]%N /\ representable [97; 92]%N /\
-  representable [97; 92; 92]%N /\ representable [50; 92; 92; 32; 49; 92; 32; 50; 92]%N /\ representable [92; 39; 92; 103]%N.
-Proof. vm_compute. repeat split; reflexivity. Qed.
